@@ -217,6 +217,8 @@ MCConfigs == { [name |-> nm, vmin |-> v[1], vmax |-> v[2], alpn |-> a, curves |-
                  v \in {<<1, 1>>, <<1, 3>>, <<3, 3>>, <<3, 4>>, <<4, 4>>},
                  a \in {"none", "h2", "long"}, cv \in {"default", "x25519", "pq"}, tk \in {0, 1} }
 
+\* at the glue (SNIProxy): an input whose length overruns its container is never routed
+MustNotRoute == out.class = "reject" /\ out.must
 CaseJson == [tpl |-> cs.tpl,
              corr |-> [kind |-> cs.corr.kind, f |-> cs.corr.f, i |-> cs.corr.i, how |-> cs.corr.how, at |-> cs.corr.at,
                        f2 |-> cs.corr.f2, i2 |-> cs.corr.i2, how2 |-> cs.corr.how2],
@@ -227,7 +229,5 @@ GenOut == Done => PrintT(ToJson(CaseJson))
 \* printed once, from the initial states' evaluation of this ASSUME-like invariant on a marker case
 \* log.level of fabio.properties: the glue runs with malformed input are repeated under every level
 LogLevels == {"TRACE", "DEBUG", "INFO", "WARN"}
-\* at the glue (SNIProxy): an input whose length overruns its container is never routed
-MustNotRoute == out.class = "reject" /\ out.must
 CfgOut == (Done /\ cs.tpl = "noext" /\ cs.wf) => PrintT(ToJson([configs |-> MCConfigs, loglevels |-> LogLevels]))
 =============================================================================
